@@ -220,8 +220,43 @@ def run(tier, seed, corrupt=False):
                 divergences[k] = divergences.get(k, 0) + 1
             if len(div_samples) < 3:
                 div_samples.append(detail)
+    # ---- the readers' side: the block cache turns blocks fetched in any order into the in-order streams assumed above
+    vf.sany("BlockCache.tla")
+    r = vf.run_tlc("BlockCache.tla", "MC_BlockCache_q.cfg" if tier == "quick" else "MC_BlockCache_t.cfg", tag=f"c10-blockcache-{tier}",
+                   workers=8, timeout=3000)
+    cache_cases = []
+    if r.violation:
+        v.mismatch(f"spec:BlockCache:{r.violation}", vf.tlc_violation_case(r))
+    else:
+        vf.require_coverage(r, ["Insert", "Pop", "DropObsolete"])
+        states += r.distinct
+        transitions += r.generated
+        seen = {}
+        for t in r.tlines:
+            seen.setdefault(vf.canon([t["s"], t["a"]]), t)
+        cache_cases = [dict(t, id=i, max_h=4 if tier == "quick" else 6) for i, t in enumerate(seen.values())]
+        cfgs.append({"cfg": "MC_BlockCache", "distinct": r.distinct, "generated": r.generated, "distinct_transitions": len(cache_cases),
+                     "wall_s": round(r.wall, 1)})
+        cres = vf.run_harness_sharded("astria-conductor", "executor::verif_harness::block_cache_transitions", cache_cases,
+                                      tag=f"c10-blockcache-{tier}", shards=8, timeout=3000)
+        cby = {x["i"]: x for x in cres}
+        if len(cby) != len(cache_cases):
+            raise vf.ToolError("block cache harness lost cases")
+        for c in cache_cases:
+            g = cby[c["id"]]
+            exp = {"out": c["a"]["out"], "next": c["t"]["next"], "cache": sorted(c["t"]["cache"])}
+            got = {"out": g["out"], "next": g["next"], "cache": sorted(g["cache"])}
+            if exp != got:
+                # The cache feeds the executor, which refuses anything out of order (that is what C10 is about and
+                # what the replays above decide): a cache that differs from its specification costs liveness, not C10.
+                k = f'blockcache:{c["a"]["op"]}:{c["a"]["out"]}'
+                divergences[k] = divergences.get(k, 0) + 1
+                if len(div_samples) < 3:
+                    div_samples.append({"case": c, "expected": exp, "observed": got,
+                                        "harness": "conductor_executor::block_cache_transitions"})
     cov = {
         "states": states, "transitions": transitions,
+        "block_cache_transitions_replayed": len(cache_cases),
         "traces_validated_against_impl": len(behaviours) + len(steps),
         "samples": steps[:1] + behaviours[:1],
         "evaluations": len(steps) + settles,
